@@ -1,4 +1,4 @@
-package main
+package gen2
 
 import (
 	"encoding/json"
@@ -17,7 +17,7 @@ import (
 
 // envelopes drives every method kind through the library's own generic client functions against a server
 // registered through the library's Register* functions, and checks the shape of what the wire tap saw.
-func envelopes(run *ev.Run) {
+func Envelopes(run *ev.Run) {
 	rec := &kit.Recorder{}
 	srv := kit.NewServer(nil)
 	kit.Register(srv, kit.ResourceSpec{
@@ -45,19 +45,19 @@ func envelopes(run *ev.Run) {
 		desc := map[string]any{"call": name}
 		if w == nil {
 			desc["error"] = fmt.Sprint(err)
-			run.Violation("v2/envelope/"+name+"/no-request", desc)
+			run.Violation(GENERATION+"/envelope/"+name+"/no-request", desc)
 			return
 		}
 		desc["request"] = map[string]any{"method": w.Method, "target": w.Target, "headers": w.Header, "body": trunc(w.Body)}
 		desc["response"] = map[string]any{"status": w.Status, "headers": w.RespHeader, "body": trunc(w.RespBody)}
 		if err != nil {
 			desc["client_error"] = err.Error()
-			run.Violation("v2/envelope/"+name+"/client-error", desc)
+			run.Violation(GENERATION+"/envelope/"+name+"/client-error", desc)
 			return
 		}
 		fail := func(what string) {
 			desc["problem"] = what
-			run.Violation("v2/envelope/"+name+"/"+strings.SplitN(what, ":", 2)[0], desc)
+			run.Violation(GENERATION+"/envelope/"+name+"/"+strings.SplitN(what, ":", 2)[0], desc)
 		}
 		if w.Header.Get("X-RestLi-Protocol-Version") != "2.0.0" {
 			fail("request-protocol-version-header")
@@ -364,9 +364,9 @@ func envelopes(run *ev.Run) {
 	_, w, err = tc.Get("things", "/things/k1", nil)
 	kind, status, msg := kit.DescribeError(err)
 	if w == nil || kind != "restli.Error" || status != 409 || msg != "conflict!" || w.Status != 409 || w.RespHeader.Get("X-RestLi-Error-Response") != "true" {
-		run.Violation("v2/envelope/error/shape", map[string]any{"wire": w, "client_error_kind": kind, "status": status, "message": msg})
+		run.Violation(GENERATION+"/envelope/error/shape", map[string]any{"wire": w, "client_error_kind": kind, "status": status, "message": msg})
 	} else if m, err := refcodec.ParseJSON([]byte(w.RespBody)); err != nil || obj(m)["status"] != any(json.Number("409")) || obj(m)["message"] != any("conflict!") {
-		run.Violation("v2/envelope/error/body", map[string]any{"wire": w})
+		run.Violation(GENERATION+"/envelope/error/body", map[string]any{"wire": w})
 	} else {
 		run.Distinct("envelope|error")
 	}
@@ -392,7 +392,7 @@ func envelopes(run *ev.Run) {
 		run.Eval(1)
 		run.Count("envelope_exchanges", 1)
 		if err != nil || !ok {
-			run.Violation("v2/envelope-unknown-member/"+name, map[string]any{"envelope": name, "client_error": fmt.Sprint(err), "detail": "a conforming response envelope with an unknown extra member was rejected or misread"})
+			run.Violation(GENERATION+"/envelope-unknown-member/"+name, map[string]any{"envelope": name, "client_error": fmt.Sprint(err), "detail": "a conforming response envelope with an unknown extra member was rejected or misread"})
 		} else {
 			run.Distinct("envelope-unknown|" + name)
 		}
@@ -434,12 +434,12 @@ func envelopes(run *ev.Run) {
 		rec.Drain()
 		resp, err := http.DefaultClient.Do(req)
 		if err != nil {
-			run.Violation("v2/envelope-unknown-member/"+name, map[string]any{"error": err.Error()})
+			run.Violation(GENERATION+"/envelope-unknown-member/"+name, map[string]any{"error": err.Error()})
 			return
 		}
 		resp.Body.Close()
 		if resp.StatusCode/100 != 2 || len(rec.Drain()) != 1 {
-			run.Violation("v2/envelope-unknown-member/"+name, map[string]any{"envelope": name, "status": resp.StatusCode, "detail": "a conforming request envelope with an unknown extra member was rejected"})
+			run.Violation(GENERATION+"/envelope-unknown-member/"+name, map[string]any{"envelope": name, "status": resp.StatusCode, "detail": "a conforming request envelope with an unknown extra member was rejected"})
 		} else {
 			run.Distinct("envelope-unknown|" + name)
 		}
@@ -448,9 +448,3 @@ func envelopes(run *ev.Run) {
 	sendRaw("request-elements", "POST", "/things", "batch_create", `{"elements":[{"n":1}],"zz":[1]}`)
 }
 
-func trunc(s string) string {
-	if len(s) > 300 {
-		return s[:300] + fmt.Sprintf("...(%d bytes)", len(s))
-	}
-	return s
-}
